@@ -42,6 +42,7 @@ def run(ctx):
     ctx.guard(rule_e, ctx, ix)
     ctx.guard(rule_f, ctx, ix)
     ctx.guard(rule_g, ctx, ix)
+    ctx.guard(rule_h, ctx, ix)
 
 
 def _loop(f, data_p):
@@ -478,3 +479,38 @@ def rule_g(ctx, ix):
                where='%s:%d' % (m.relpath, uses[0].lineno if uses else 1))
     if n < 3:
         raise AnalysisError('C19.g: only %d exporter modules seen' % n)
+
+
+def rule_h(ctx, ix):
+    """Integer images have no NaN: the pixels outside the subset are overwritten with a sentinel, and the reader turns exactly the
+    value announced as BLANK in that HDU's header back into NaN.  The sentinel written into the pixels must therefore be stored under
+    BLANK for every component that was masked with it - unconditionally: the header may already carry a BLANK (from the file the data
+    came from, or from the previous component when the header object is shared)."""
+    from .. import cond
+    R = 'C19.h'
+    ctx.describe(R, 'gridded FITS: the sentinel written into masked integer pixels is the BLANK announced in the same HDU header', floor=1)
+    f = ix.func('glue.core.data_exporters.gridded_fits.fits_writer')
+    fills = [st for st in ast.walk(f.node) if isinstance(st, ast.Assign) and isinstance(st.targets[0], ast.Subscript)
+             and isinstance(st.value, ast.Name) and 'mask' in unparse(st.targets[0].slice)]
+    if not fills:
+        raise AnalysisError('fits_writer: the sentinel fill `values[~mask] = blank` is no longer recognised')
+    for fill in fills:
+        var = fill.value.id
+        stores = [st for st in ast.walk(f.node) if isinstance(st, ast.Assign) and isinstance(st.targets[0], ast.Subscript)
+                  and isinstance(st.targets[0].slice, ast.Constant) and st.targets[0].slice.value == 'BLANK']
+        soft = [c for c in calls_in(f.node) if call_name(c) == 'setdefault' and c.args and isinstance(c.args[0], ast.Constant) and c.args[0].value == 'BLANK']
+        good = []
+        for st in stores:
+            pc = cond.path_condition(f.node, st, expand=False) or ('const', True)
+            if isinstance(st.value, ast.Name) and st.value.id == var and not any('BLANK' in a for a in cond.atoms(pc)):
+                good.append(st)
+        other = [c for c in calls_in(f.node) if any(isinstance(a, ast.Constant) and a.value == 'BLANK' for a in c.args) and c not in soft]
+        ctx.idiom(R, '%s `%s`' % (f.construct, norm(fill)), 'header[\'BLANK\'] = %s, whatever the header held before' % var,
+                  accepted=bool(good), absent=not good and not other,
+                  detail_absent='fits_writer fills the masked integer pixels with `%s` but %s: when the header already has a BLANK (the shared '
+                                'component header after an integer component of another width, or the header of the file the data came '
+                                'from) the sentinel of this component is not the announced one, and the pixels outside the subset reload '
+                                'as a large negative number instead of NaN' % (
+                                    var, 'announces it only with `%s`, which keeps an existing value' % unparse(soft[0]) if soft else
+                                    'stores BLANK only under a test of what the header holds' if stores else 'never stores it under BLANK'),
+                  shape='; '.join(unparse(c) for c in other)[:200], where=where(f, fill))
